@@ -42,11 +42,18 @@ def corrupt_coverage(recs):
     return "one non-exhaustive match recorded as accepted"
 
 
+def corrupt_lsp(recs):
+    i = next(i for i, r in enumerate(recs) if r["got"] != "none" and r["got"] == r["want"])
+    recs[i]["got"] = "0" * 12
+    return "one notification carries the diagnostics of another text"
+
+
 CASES = [
     ("ZyDeterminismTrace.tla", "ZyDeterminismTrace.cfg", "determinism/trace.ndjson", corrupt_determinism, None),
     ("ZyFrontendTrace.tla", "ZyFrontendTrace.cfg", "frontend/trace.ndjson", corrupt_frontend, None),
     ("ZyFormatTrace.tla", "ZyFormatTrace.cfg", "format/trace.ndjson", corrupt_format, "bad12"),
     ("ZyCoverageTrace.tla", "ZyCoverageTrace.cfg", "cov/q.trace.ndjson", corrupt_coverage, None),
+    ("ZyLspTrace.tla", "ZyLspTrace.cfg", "conc_chk/lsp.trace.ndjson", corrupt_lsp, None),
 ]
 
 
@@ -89,7 +96,7 @@ def run():
             ok = after[1][0] == before[1][0] + 1
             log("[selftest] %s: records breaking a C12 relation %d as recorded, %d after corruption (%s): %s" % (module, before[1][0], after[1][0], what, "bound" if ok else "NOT BOUND"))
         else:
-            ok = after[0] == "rejected"
+            ok = after[0] == "rejected" and before[0] == "accepted"
             log("[selftest] %s: %s as recorded, %s after corruption (%s): %s" % (module, before[0], after[0], what, "bound" if ok else "NOT BOUND"))
         if not ok:
             raise ToolError("trace specification %s accepts a corrupted trace" % module)
